@@ -82,7 +82,10 @@ def fresh_main_entry():
 class Cmd(object):
     def __init__(self, c):
         self.argv = c['argv']
-        self.flags = c.get('flags', [])
+        self.flags = list(c.get('flags', []))
+        for f in c.get('repeat_flags', []):
+            if f not in self.flags:
+                self.flags.append(f)       # a repeated flag counts once; it counts even if the shrinker dropped the first copy
         self.preserve = c.get('preserve', [])
         self.paths = c.get('paths', [])
         self.in_place = bool(c.get('in_place'))
